@@ -38,10 +38,13 @@ type queryObj interface {
 }
 
 type filterObj struct {
-	unsafe bool
-	f0     *ecs.Filter0
-	uf     ecs.UnsafeFilter
-	ids    []int
+	unsafe  bool
+	f0      *ecs.Filter0
+	uf      ecs.UnsafeFilter
+	ids     []int
+	without []int
+	excl    bool
+	rels    [][2]int64
 }
 
 type observerObj struct {
@@ -428,10 +431,14 @@ func (s *Sim) exec(line []int64) []int64 {
 		ids := r.list()
 		without := r.list()
 		excl := r.num() != 0
-		rels := s.rels(r.pairs())
-		fo := &filterObj{unsafe: uns}
+		relPairs := r.pairs()
+		rels := s.rels(relPairs)
+		fo := &filterObj{unsafe: uns, excl: excl, rels: relPairs}
 		for _, c := range ids {
 			fo.ids = append(fo.ids, int(c))
+		}
+		for _, c := range without {
+			fo.without = append(fo.without, int(c))
 		}
 		if uns {
 			uf := ecs.NewUnsafeFilter(w, s.ids(ids)...)
